@@ -6,6 +6,7 @@
 //   CLONE <msgspec>        source built through the generic API
 //   COPY  <msgspec>
 //   MOVE  <msgspec>
+//   (a float field value "~<p>~<decimal text>" = API-built Field<fp_type,N>(value, precision p), see make_field)
 //   DCLONE <mode> <hex>    source = Message::factory(ctx, bytes, no_chksum, permissive); mode = s|p [n]
 //   DCOPY  <mode> <hex>
 //   DMOVE  <mode> <hex>
@@ -64,6 +65,28 @@ struct Parser
 	}
 };
 
+// A value text "~<digit p>~<decimal text>" on a floating point field (Price, Qty, Amt, PriceOffset,
+// Percentage: every Field<fp_type, N>) asks for the API-built object Field<fp_type, N>(value, p):
+// the generic instantiator builds the field from the decimal text (_value = fast_atof(text), as the
+// (value, precision) constructor would be given) and its precision is then set with the class's own
+// set_precision().  set_precision is not virtual: it is reached through Field<fp_type, 0>, whose
+// layout every Field<fp_type, N> shares -- the same cast fix8 itself uses in has_group_count().
+// On any other field the text is taken literally.
+BaseField *make_field(unsigned short fnum, const std::string& val)
+{
+	if (val.size() >= 3 && val[0] == '~' && val[2] == '~' && isdigit(static_cast<unsigned char>(val[1])))
+	{
+		BaseField *probe(mctx().create_field(fnum, val.c_str() + 3));
+		if (probe && probe->get_underlying_type() == FieldTrait::ft_float)
+		{
+			static_cast<Field<fp_type, 0> *>(probe)->set_precision(val[1] - '0');
+			return probe;
+		}
+		delete probe;
+	}
+	return mctx().create_field(fnum, val.c_str());
+}
+
 void fill(Parser& p, MessageBase *mb, GroupBase *owner_gb)
 {
 	while (p.more() && p.peek() != ')')
@@ -72,7 +95,7 @@ void fill(Parser& p, MessageBase *mb, GroupBase *owner_gb)
 		if (p.peek() != '=') throw std::runtime_error("spec: = expected");
 		++p.i;
 		const std::string val(p.hexval());
-		BaseField *bf(mctx().create_field(static_cast<unsigned short>(fnum), val.c_str()));
+		BaseField *bf(make_field(static_cast<unsigned short>(fnum), val));
 		if (!bf) throw std::runtime_error("spec: no such field");
 		mb->add_field(bf);
 		if (p.peek() == '[')
